@@ -1,5 +1,5 @@
 use crate::{
-    UInt64,
+    ObjectId, UInt64,
     io::{
         logger::{Alter, Create, Delete, DropOp, Insert, Operation, Update},
         wal::AnalysisResult,
@@ -13,6 +13,7 @@ use crate::{
         },
         dml::DmlExecutor,
     },
+    schema::catalog::CatalogError,
     storage::tuple::Row,
 };
 
@@ -160,14 +161,18 @@ impl WalRecuperator {
 
         // Determine if it's a table or index and execute the inverse
         if let Ok(create_table_instr) = CreateTableInstr::from_bytes(redo_bytes) {
-            let drop_instr = create_table_instr.inverse(object_id);
+            // The object may be gone already: the transaction rolled back by itself before the
+            // crash, or nothing of it ever reached the file. Undo must be repeatable.
+            let mut drop_instr = create_table_instr.inverse(object_id);
+            drop_instr.if_exists = true;
             let instr = DdlInstruction::DropTable(drop_instr);
             self.ddl_executor.execute_instruction(&instr)?;
             return Ok(());
         }
 
         if let Ok(create_index_instr) = CreateIndexInstr::from_bytes(redo_bytes) {
-            let drop_instr = create_index_instr.inverse(object_id);
+            let mut drop_instr = create_index_instr.inverse(object_id);
+            drop_instr.if_exists = true;
             let instr = DdlInstruction::DropIndex(drop_instr);
             self.ddl_executor.execute_instruction(&instr)?;
         }
@@ -216,27 +221,12 @@ impl WalRecuperator {
 
     /// Recovers a DROP operation during undo phase.
     ///
-    /// Deserializes the CreateTableInstr or CreateIndexInstr from the undo
-    /// payload and executes it to restore the dropped table/index.
-    fn undo_drop(&mut self, drop_op: &DropOp) -> RuntimeResult<()> {
-        let undo_bytes = drop_op.undo();
-
-        if undo_bytes.is_empty() {
-            return Ok(());
-        }
-
-        // The undo of DROP is CREATE - restore from the saved instruction
-        if let Ok(create_table_instr) = CreateTableInstr::from_bytes(undo_bytes) {
-            let instr = DdlInstruction::CreateTable(create_table_instr);
-            self.ddl_executor.execute_instruction(&instr)?;
-            return Ok(());
-        }
-
-        if let Ok(create_index_instr) = CreateIndexInstr::from_bytes(undo_bytes) {
-            let instr = DdlInstruction::CreateIndex(create_index_instr);
-            self.ddl_executor.execute_instruction(&instr)?;
-        }
-
+    /// NO-STEAL: nothing a transaction that did not commit has done reaches the data file, so its
+    /// DROP removed nothing from the state that is being recovered. An object that is missing now
+    /// was created after the last checkpoint and comes back with the redo of its own CREATE
+    /// (re-creating it here, before that redo, collides with it: "already exists", and the
+    /// database does not open); an object that is present needs nothing.
+    fn undo_drop(&mut self, _drop_op: &DropOp) -> RuntimeResult<()> {
         Ok(())
     }
 
@@ -278,11 +268,32 @@ impl WalRecuperator {
         Ok(())
     }
 
+    /// Whether the table an undone operation was on exists at all in the state that is being
+    /// recovered. It does not when it was created after the last checkpoint (its CREATE is redone
+    /// later, or was rolled back): nothing of the loser reached it, there is nothing to take back.
+    fn undo_target_exists(&self, table_id: ObjectId) -> RuntimeResult<bool> {
+        let builder = self.dml_executor.ctx().tree_builder();
+        let snapshot = self.dml_executor.ctx().snapshot();
+        match self
+            .dml_executor
+            .ctx()
+            .catalog()
+            .get_relation(table_id, &builder, &snapshot)
+        {
+            Ok(_) => Ok(true),
+            Err(CatalogError::TableNotFound(_)) => Ok(false),
+            Err(other) => Err(other.into()),
+        }
+    }
+
     // DML Undo operations
     fn undo_delete(&mut self, delete_op: &Delete) -> RuntimeResult<()> {
         let table_id = delete_op
             .object_id()
             .expect("Table id must be set for DML logs");
+        if !self.undo_target_exists(table_id)? {
+            return Ok(());
+        }
 
         let builder = self.dml_executor.ctx().tree_builder();
         let snapshot = self.dml_executor.ctx().snapshot();
@@ -312,6 +323,9 @@ impl WalRecuperator {
             .row_id()
             .map(|r| UInt64::from(r))
             .expect("Row id must be set for DML logs");
+        if !self.undo_target_exists(table_id)? {
+            return Ok(());
+        }
 
         let builder = self.dml_executor.ctx().tree_builder();
         let snapshot = self.dml_executor.ctx().snapshot();
@@ -340,6 +354,9 @@ impl WalRecuperator {
             .row_id()
             .map(|r| UInt64::from(r))
             .expect("Row id must be set for DML logs");
+        if !self.undo_target_exists(table_id)? {
+            return Ok(());
+        }
 
         self.dml_executor.delete(table_id, &row_id)?;
         Ok(())
